@@ -196,7 +196,12 @@ impl MetaStore for SimMetaStore {
         if g.frozen {
             return Ok(());
         }
+        // MetaStore contract: "Atomically persist hard state" — a conforming store makes it durable
+        // before returning (RaftLog::save_hard_state: "MUST call fsync/flush before returning").
+        // The simulated store honours the contract; whether the real File/RocksDB stores fsync is a
+        // store-level question outside C02 (which quantifies over process crashes).
         g.meta_cache.hard_state = Some(*state);
+        g.meta_durable.hard_state = Some(*state);
         g.hard_state_saves += 1;
         Ok(())
     }
